@@ -119,83 +119,88 @@ def run_property(P, tier, seed, replay_lines=None):
                 broken_proofs.append(f"leanchecker {m} failed: " + _short((o3 + e3)[-800:], 800))
         thorough_leanchecker = lc
 
-    # ---- 4. run implementation
-    groups = {}
-    for i, c in enumerate(cases):
-        if c.op is not None:
-            envk = tuple(sorted((getattr(c, "env", None) or {}).items()))
-            groups.setdefault((c.flavour, c.exe, envk, getattr(c, "group", 0)), []).append(i)
-    for gi, ((fl, exe, envk, _grp), idxs) in enumerate(groups.items()):
-        outs = implside.run_ops(hd[fl], [cases[i].op for i in idxs], workdir, f"{fl}-{exe}-{gi}", exe=exe,
-                                timeout=getattr(P, "TIMEOUT", 1800), env=dict(envk) or None,
-                                atomic=any(k == "VH_THREADS" for k, _ in envk))
-        for i, o in zip(idxs, outs):
-            cases[i].hout = o
+    def _execute(cases, tagp=""):
+        """runs implementation + model on the cases, compares, evaluates oracles; returns (disagreements, model_err)"""
+        disagreements = []
+        model_err = None
+        # ---- 4. run implementation
+        groups = {}
+        for i, c in enumerate(cases):
+            if c.op is not None:
+                envk = tuple(sorted((getattr(c, "env", None) or {}).items()))
+                groups.setdefault((c.flavour, c.exe, envk, getattr(c, "group", 0)), []).append(i)
+        for gi, ((fl, exe, envk, _grp), idxs) in enumerate(groups.items()):
+            outs = implside.run_ops(hd[fl], [cases[i].op for i in idxs], workdir, f"{tagp}{fl}-{exe}-{gi}", exe=exe,
+                                    timeout=getattr(P, "TIMEOUT", 1800), env=dict(envk) or None,
+                                    atomic=any(k == "VH_THREADS" for k, _ in envk))
+            for i, o in zip(idxs, outs):
+                cases[i].hout = o
 
-    # ---- 5. run model
-    mlines, midx = [], []
-    for i, c in enumerate(cases):
-        if c.model is False:
-            continue
-        if callable(c.model):
-            ml = c.model(c.hout)
-        elif c.model is None:
-            ml = c.op
-        else:
-            ml = c.model
-        if ml is None:
-            continue
-        mlines.append(ml)
-        midx.append(i)
-    model_err = None
-    if mlines and driver_ok:
-        f = os.path.join(workdir, "model.ops.txt")
-        with open(f, "w") as fh:
-            fh.write("\n".join(mlines) + "\n")
-        rcm, mouts, merr = leanside.run_driver(f, timeout=getattr(P, "TIMEOUT", 1800))
-        if rcm != 0 or len(mouts) != len(mlines):
-            model_err = f"model driver rc={rcm}, {len(mouts)}/{len(mlines)} lines: {_short(merr[-500:], 500)}"
-        for i, o in zip(midx, mouts):
-            cases[i].mout = o
-
-    # ---- 6. compare + oracle
-    disagreements = []
-    for c in cases:
-        if c.hout is not None and c.hout.startswith("CRASH") and not getattr(c, "crash_ok", False):
-            sig = getattr(c, "sig_override", None) or ("crash:" + (c.note or c.op.split(" ", 1)[0]))
-            if sig in known:
-                res.known_hits.append((sig, known[sig]))
+        # ---- 5. run model
+        mlines, midx = [], []
+        for i, c in enumerate(cases):
+            if c.model is False:
                 continue
-            res.violations.append({"kind": "implementation-crash", "signature": sig,
-                                   "text": c.hout, "case": c})
-            continue
-        if c.oracle is not None and c.hout is not None:
-            v = c.oracle(c.hout, c)
-            if v is not None:
-                sig, txt = v
+            if callable(c.model):
+                ml = c.model(c.hout)
+            elif c.model is None:
+                ml = c.op
+            else:
+                ml = c.model
+            if ml is None:
+                continue
+            mlines.append(ml)
+            midx.append(i)
+        if mlines and driver_ok:
+            f = os.path.join(workdir, tagp + "model.ops.txt")
+            with open(f, "w") as fh:
+                fh.write("\n".join(mlines) + "\n")
+            rcm, mouts, merr = leanside.run_driver(f, timeout=getattr(P, "TIMEOUT", 1800))
+            if rcm != 0 or len(mouts) != len(mlines):
+                model_err = f"model driver rc={rcm}, {len(mouts)}/{len(mlines)} lines: {_short(merr[-500:], 500)}"
+            for i, o in zip(midx, mouts):
+                cases[i].mout = o
+
+        # ---- 6. compare + oracle
+        for c in cases:
+            if c.hout is not None and c.hout.startswith("CRASH") and not getattr(c, "crash_ok", False):
+                sig = getattr(c, "sig_override", None) or ("crash:" + (c.note or c.op.split(" ", 1)[0]))
                 if sig in known:
                     res.known_hits.append((sig, known[sig]))
-                else:
-                    res.violations.append({"kind": "property-violated-by-implementation", "signature": sig,
-                                           "text": txt, "case": c})
-        sp = getattr(c, "spec", None)
-        if sp is not None and c.hout is not None and c.mout is not None:
-            v = sp(c.hout, c.mout, c)
-            if v is not None:
-                sig, txt = v
-                if sig in known:
-                    res.known_hits.append((sig, known[sig]))
-                else:
-                    res.violations.append({"kind": "property-violated-by-implementation", "signature": sig,
-                                           "text": txt, "case": c})
-        if c.model is not False and c.mout is not None and c.hout is not None or (c.op is None and c.mout is not None):
-            d = None
-            if c.expect is not None:
-                d = c.expect(c.hout, c.mout, c)
-            elif c.hout != c.mout:
-                d = f"implementation: {_short(c.hout)} | model: {_short(c.mout)}"
-            if d is not None:
-                disagreements.append((c, d))
+                    continue
+                res.violations.append({"kind": "implementation-crash", "signature": sig,
+                                       "text": c.hout, "case": c})
+                continue
+            if c.oracle is not None and c.hout is not None:
+                v = c.oracle(c.hout, c)
+                if v is not None:
+                    sig, txt = v
+                    if sig in known:
+                        res.known_hits.append((sig, known[sig]))
+                    else:
+                        res.violations.append({"kind": "property-violated-by-implementation", "signature": sig,
+                                               "text": txt, "case": c})
+            sp = getattr(c, "spec", None)
+            if sp is not None and c.hout is not None and c.mout is not None:
+                v = sp(c.hout, c.mout, c)
+                if v is not None:
+                    sig, txt = v
+                    if sig in known:
+                        res.known_hits.append((sig, known[sig]))
+                    else:
+                        res.violations.append({"kind": "property-violated-by-implementation", "signature": sig,
+                                               "text": txt, "case": c})
+            if c.model is not False and c.mout is not None and c.hout is not None or (c.op is None and c.mout is not None):
+                d = None
+                if c.expect is not None:
+                    d = c.expect(c.hout, c.mout, c)
+                elif c.hout != c.mout:
+                    d = f"implementation: {_short(c.hout)} | model: {_short(c.mout)}"
+                if d is not None:
+                    disagreements.append((c, d))
+        return disagreements, model_err
+
+    disagreements, model_err = _execute(cases)
     if model_err:
         broken_proofs.append(model_err)
 
@@ -205,6 +210,16 @@ def run_property(P, tier, seed, replay_lines=None):
         found = None
         if hasattr(P, "search"):
             found = P.search(rng, tier, hd, workdir, disagreements, broken_proofs)
+        elif replay_lines is None:
+            # generic search for a concrete failing input: a fresh, deeper set of cases (the thorough generators,
+            # another PRNG stream) is run through the implementation and the property oracles only
+            res.notes.append("obligation/correspondence broken without failing input: searching with the thorough generators")
+            try:
+                more = P.generate(random.Random(f"{seed}-{pid}-search"), "thorough")[:getattr(P, "SEARCH_CASES", 4000)]
+                _execute(more, tagp="search-")
+                cases.extend(more)
+            except Exception as ex:      # the search is best effort; the violation is reported either way
+                res.notes.append(f"search aborted: {ex!r}")
         if found:
             for (sig, txt, case) in found:
                 if sig in known:
